@@ -112,6 +112,16 @@ pub fn verif_hex_fingerprint(s: &String) -> Result<Fingerprint, StateError> { un
 // `Fingerprint(calculate_fingerprint(cert.certificate.as_bytes()).map_err(|e| StateError::ReplaceCertificate(e.to_string()))?)`
 #[verifier::external_body]
 pub fn verif_calc_fingerprint(c: &CertificateAndKey) -> Result<Fingerprint, StateError> { unimplemented!() }
+// `map.get_mut(k).map(|inner| inner.insert(f, c))` (closure with a `&mut` parameter is outside Verus): inserts into the
+// inner map when the outer key exists, nothing otherwise (std semantics of Option::map + HashMap::insert)
+#[verifier::external_body]
+pub fn verif_insert_if_present(m: &mut HashMap<SocketAddr, HashMap<Fingerprint, CertificateAndKey>>, k: &SocketAddr, e: (Fingerprint, CertificateAndKey)) -> (r: Option<Option<CertificateAndKey>>)
+    ensures
+        !old(m)@.contains_key(*k) ==> final(m)@ == old(m)@,
+        old(m)@.contains_key(*k) ==> final(m)@.dom() =~= old(m)@.dom()
+            && (forall|j: SocketAddr| j != *k && old(m)@.contains_key(j) ==> #[trigger] final(m)@[j] == old(m)@[j])
+            && final(m)@[*k]@ == old(m)@[*k]@.insert(e.0, e.1),
+{ unimplemented!() }
 #[verifier::external_body]
 pub fn verif_fp_eq(a: &Fingerprint, b: &Fingerprint) -> (r: bool) ensures r == (*a == *b) { unimplemented!() }
 #[verifier::external_body]
@@ -122,6 +132,7 @@ pub fn verif_unlikely_msg() -> String { unimplemented!() }
 pub fn verif_failed_insert_msg(a: &SocketAddress) -> String { unimplemented!() }
 #[verifier::external_body] pub struct UnknownEnumValue { _p: () }
 #[verifier::external_body] pub struct CertificateError { _p: () }
+impl CertificateError { #[verifier::external_body] pub fn to_string(&self) -> String { unimplemented!() } }
 #[verifier::external_body] pub struct IoError { _p: () }
 #[verifier::external_body] pub struct CustomHttpAnswers { _p: () }
 pub enum ObjectKind { Backend, Certificate, Cluster, HttpFrontend, HttpsFrontend, HttpListener, HttpsListener, Listener, TcpCluster, TcpListener, TcpFrontend, UdpListener, UdpFrontend }
@@ -337,7 +348,7 @@ impl ConfigState {
     //@  subst "Fingerprint(\n            hex::decode(&replace.old_fingerprint)\n                .map_err(|decode_error| StateError::RemoveCertificate(decode_error.to_string()))?,\n        )" => "verif_hex_fingerprint(&replace.old_fingerprint)?"
     //@  subst "Fingerprint(\n            calculate_fingerprint(replace.new_certificate.certificate.as_bytes()).map_err(\n                |fingerprint_err| StateError::ReplaceCertificate(fingerprint_err.to_string()),\n            )?,\n        )" => "verif_calc_fingerprint(&replace.new_certificate)?"
     //@  subst "replace.address.to_string()" => "verif_socketaddress_string(&replace.address)"
-    //@  subst "self.certificates\n            .get_mut(&replace_address)\n            .map(|certs| certs.insert(new_fingerprint.clone(), replace.new_certificate.clone()));" => "if let Some(certs) = self.certificates.get_mut(&replace_address) { certs.insert(new_fingerprint.clone(), replace.new_certificate.clone()); }"
+    //@  subst "self.certificates\n            .get_mut(&replace_address)\n            .map(|certs| certs.insert(" => "verif_insert_if_present(&mut self.certificates, &replace_address, ("
     //@  subst "\"Unlikely error. This entry in the certificate hashmap should be present\"\n                    .to_string()," => "verif_unlikely_msg(),"
     //@  subst "format!(\n                \"Failed to insert the new certificate for address {}\",\n                replace.address\n            )" => "verif_failed_insert_msg(&replace.address)"
     //@  drop_dassert 0 closure-based is_some_and(..) is outside Verus
